@@ -220,6 +220,46 @@ def _reused_path(text):
     return p
 
 
+class _Named(io.StringIO):
+    """an in-memory text stream that has a name, as wrappers of archives / sockets / pipes do"""
+    def __init__(self, text, name):
+        super().__init__(text)
+        self.name = name
+
+
+def _stream(text):
+    """The text as the 'fp' of Chart.from_file.  Mostly a plain StringIO; every seventh parse another kind of text stream a
+    caller may hold: a descriptor-backed one whose .name is an INTEGER (TemporaryFile, os.fdopen), a real file opened by name,
+    in-memory streams whose .name is a str / bytes / Path / None (round 10, seeded/C15j: the error re-raised with
+    os.path.basename(fp.name)).  Newlines are not translated, so the text that reaches the library is the same."""
+    import os
+    import tempfile
+    n = _PARSES[0]
+    if n % 7 != 3:
+        return io.StringIO(text)
+    kind = (n // 7) % 6
+    if kind in (0, 1):
+        try:
+            data = text.encode("utf-8")
+        except UnicodeEncodeError:
+            return io.StringIO(text)
+        if kind == 0:
+            f = tempfile.TemporaryFile("w+", encoding="utf-8", newline="", dir=os.environ.get("VERIF_TMP") or None)
+        else:
+            f = tempfile.NamedTemporaryFile("w+", encoding="utf-8", newline="", suffix=".chart", dir=os.environ.get("VERIF_TMP") or None)
+        f.write(text)
+        f.seek(0)
+        return f
+    if kind == 2:
+        return _Named(text, "songs/My Song/notes.chart")
+    if kind == 3:
+        return _Named(text, b"notes.chart")
+    if kind == 4:
+        from pathlib import Path
+        return _Named(text, Path("notes.chart"))
+    return _Named(text, None)
+
+
 def parse(text: str, want=None, capture_logs=False):
     """Parse with the real Chart.from_file (or, every few parses, Chart.from_filepath on a reused path).  Returns
     (chart, logs) if capture_logs else chart."""
@@ -231,7 +271,8 @@ def parse(text: str, want=None, capture_logs=False):
         if p is not None:
             from pathlib import Path
             return keep_alive(Chart.from_filepath(Path(p), want_tracks=want))
-        return keep_alive(Chart.from_file(io.StringIO(text), want_tracks=want))
+        with _stream(text) as fp:
+            return keep_alive(Chart.from_file(fp, want_tracks=want))
     h = LogCapture()
     lg = logging.getLogger("chartparse")
     old_level = lg.level
